@@ -217,9 +217,13 @@ def finish(prop, tier, seed, level, result, rule, assumptions, t0, replay_fn, kn
     wall = time.time() - t0
     if result.infra:
         result.extra['infrastructure_notes'] = result.infra[:10]
-    write_evidence(prop, tier, seed, level, result, rule, wall, assumptions, len(confirmed), extra_cov)
     for msg in result.infra[:10]:
         sys.stderr.write('INFRA: %s\n' % msg)
+    if result.evaluations == 0 and not confirmed:
+        # nothing ran (a generator or harness crash in every worker): a broken check, reported as such - never as a verdict
+        sys.stderr.write('BROKEN-CHECK: nothing was evaluated\n')
+        return 2
+    write_evidence(prop, tier, seed, level, result, rule, wall, assumptions, len(confirmed), extra_cov)
     print('%s tier=%s seed=%d evaluations=%d distinct_nontrivial=%d excluded=%d wall=%.1fs' % (
         prop, tier, seed, result.evaluations, len(result.nontrivial), result.excluded, wall))
     if confirmed:
